@@ -396,6 +396,75 @@ def gen_history(rng, t, n_cmds, p_invalid=0.0, p_child=0.0, p_copy=0.0, top_only
     return {"t": t, "v": v, "cmds": cmds}
 
 
+def simple_mutation(rng, vi, ty, x):
+    """a valid mutating command through view vi of type ty"""
+    k = ty[0]
+    try:
+        ln = len(x) if k in ("vec", "list", "bitvec", "bitlist") else 0
+    except Exception:
+        ln = 0
+    if k == "cont":
+        i = rng.randrange(0, len(ty[1]))
+        return ["set", vi, i, gen_arg(rng, ty[1][i])]
+    if k == "list":
+        return ["append", vi, gen_arg(rng, ty[1])] if ln < ty[2] else ["set", vi, 0, gen_arg(rng, ty[1])]
+    if k == "vec":
+        return ["set", vi, rng.randrange(0, max(ln, 1)), gen_arg(rng, ty[1])]
+    if k == "bitlist":
+        return ["append", vi, ["val", True]] if ln < ty[1] else ["bitset", vi, 0, ["val", True]]
+    if k == "bitvec":
+        return ["bitset", vi, rng.randrange(0, max(ln, 1)), ["val", True]]
+    if k == "union":
+        o = union_opt(ty, 0)
+        return ["change", vi, 0, ["none"] if o is None else gen_arg(rng, o)]
+    return None
+
+
+def add_stale_tail(rng, inp):
+    """extend a history by: take the child view of the LAST element of a held list of composite elements, pop the list,
+    then mutate through the (now stale) child view, then append to the list again.  The write through the stale view
+    must not reach the list (the implementation raises; the model says the same) and every enclosing view must stay
+    what it was."""
+    sh = Shadow(inp["t"], inp["v"])
+    for c in inp["cmds"]:
+        try:
+            sh.run(c)
+        except Exception:
+            pass
+    cands = []
+    for vi, (ty, x) in enumerate(zip(sh.types, sh.views)):
+        if ty is not None and ty[0] == "list" and ty[1][0] in ("cont", "list", "vec", "bitlist", "bitvec", "union"):
+            try:
+                if len(x) >= 1 and not sh.stale(vi):
+                    cands.append(vi)
+            except Exception:
+                pass
+    if not cands or len(sh.views) > 11:
+        return None
+    vi = rng.choice(cands)
+    ln = len(sh.views[vi])
+    tail = [["get", vi, ln - 1]]
+    sh.run(tail[0])
+    nv = len(sh.views) - 1
+    tail.append(["pop", vi])
+    try:
+        sh.run(tail[1])
+    except Exception:
+        return None
+    for _ in range(rng.randrange(1, 3)):
+        m = simple_mutation(rng, nv, sh.types[nv], sh.views[nv])
+        if m is None:
+            return None
+        tail.append(m)
+        try:
+            sh.run(m)
+        except Exception:
+            pass
+    if rng.random() < 0.5:
+        tail.append(["append", vi, gen_arg(rng, sh.types[vi][1])])
+    return dict(inp, cmds=inp["cmds"] + tail)
+
+
 def shrink_history(inp):
     cmds = inp["cmds"]
     n = len(cmds)
